@@ -183,3 +183,22 @@ class ba_sizing:
 
         yield "flow-only", result == frozenset((Sizing.FLOW,))
         yield "frame", _frame(old, s)
+
+
+def _not_box(a):
+    return neg(sizing_has(a.box_widget, urwid.Sizing.BOX))
+
+
+@contract(BA + "BoxAdapter.__init__", property=("C01", "C09"), replayable=False,
+          inline=BINL + ("urwid/widget/widget_decoration.py:WidgetDecoration.__init__",))
+class ba_init:
+    self_shape = BOXADAPTER
+    params = dict(box_widget=Opaque("Widget"), height=Int)
+    raises = (_ba.BoxAdapterError,)
+
+    def ensures(old, s, a, result):
+        yield "wraps-a-box-widget", neg(_not_box(a))
+        yield "child-and-height-stored", both(eq(s._original_widget, a.box_widget), s.height == a.height)
+
+    def on_raise(old, s, a, exc):
+        yield "only-for-a-child-that-is-not-a-box-widget", _not_box(a)
